@@ -115,7 +115,8 @@ G5_Model == bad5 = {}
 EmitInv == (~Emit) \/ PrintT(<<"B", hist>>)
 (* histories on which a listed known finding shows (spec level); replayed as witnesses *)
 EmitKnown == (~Emit) \/ kn = {} \/ PrintT(<<"K", hist>>)
-View == <<mc, gsets, app, chainEv, openEv, dirty, kp, g, smg, last>>
+View == <<mc, gsets, app, chainEv, openEv, dirty, kp, g, smg, last>>     \* one history per (state, last op)
+ViewS == <<mc, gsets, app, chainEv, openEv, dirty, kp, g, smg>>          \* one history per state
 
 ----------------------------------------------------------------------------
 (* G4: liveness of the composed model.  The bookkeeping variables are frozen so that the state
